@@ -139,6 +139,10 @@ def jobs(tier):
                                          "audit": 0}})
     for cfg in (["po", "oo"]):
         for aging in (0, 10):
+            out.append({"prop": PROP, "cfg": cfg, "order": "asc", "base": BASE, "scripts": [[], []], "orderlaw": True,
+                        "opts": {"explicit_time": True, "aging": aging, "prioritize": {}}})
+    for cfg in (["po", "oo"]):
+        for aging in (0, 10):
             for pname in ("flat", "x_first", "x_last"):
                 out.append({"prop": PROP, "cfg": cfg, "order": "asc", "base": BASE, "scripts": [[], []],
                             "starve": True, "opts": {"explicit_time": True, "aging": aging, "prioritize": PRIOS[pname]}})
@@ -175,9 +179,52 @@ def run_starve(job):
             "capped": False, "violations": vs, "outcomes": [], "sample": {"starve": True, "synced_at_round": synced_at}}
 
 
+ORDER_EVENTS = {"Lx": (0, ["write", "x", "x0"]), "Ly": (0, ["write", "y", "Y1"]), "Rx": (1, ["write", "x", "RX"]),
+                "Ry": (1, ["write", "y", "RY"])}
+
+
+def run_order(job):
+    """'within a priority, older changes first' for entries with BOTH sides pending: notifications (a local re-save of x with
+    unchanged bytes, a local edit of y, remote edits of x / y) arrive in every order, a tick apart; then the sync loop runs"""
+    import itertools
+    vs = []
+    n = 0
+    for names in (("Lx", "Ly", "Rx"), ("Lx", "Ly", "Rx", "Ry")):
+        for perm in itertools.permutations(names):
+            scripts = [[], []]
+            for e in perm:
+                side, op = ORDER_EVENTS[e]
+                scripts[side].append(list(op))
+            w = DRIVER.make_world(dict(job, scripts=scripts))
+            n += 1
+            try:
+                for e in perm:
+                    side, _ = ORDER_EVENTS[e]
+                    w.user(side)
+                    w.step("IL" if side == 0 else "IR")
+                    w.clock.t += 4.0
+                w.clock.t += 11.0
+                npk = 0
+                for i in range(12):
+                    w.step("S")
+                errs = [x for x in w.pick_errors if x[0] in ("age-order", "priority-order", "picked-not-eligible")]
+                if errs:
+                    v = viol("pick-" + errs[0][0], "order:" + "".join(perm), {"detail": repr(errs[0][1]), "events": list(perm),
+                                                                            "picks": w.picks})
+                    v["hist"] = list(perm) + ["T11", "S*"]
+                    if not any(o["kind"] == v["kind"] and o["sig"] == v["sig"] for o in vs):
+                        vs.append(v)
+            finally:
+                w.close()
+    return {"states": n * 12, "transitions": n * 12, "evaluations": n, "traces": n, "nontrivial": n, "terminals": n,
+            "capped": False, "violations": vs, "outcomes": [], "sample": {"order-scenarios": n}}
+
+
 def run_job(job):
     if job.get("starve"):
         return run_starve(job)
+    if job.get("orderlaw"):
+        return run_order(job)
     return run_explore(DRIVER, job)
 
 
